@@ -340,14 +340,20 @@ func runC10(r *Run, p *Prog) {
 				vt := T.T(rv.Val)
 				okv := vt == errT || strings.Contains(strip(vt), "global:io.") || strings.HasPrefix(strip(vt), "call:fmt.Errorf(") || strings.HasPrefix(strip(vt), "call:errors.New(")
 				if !okv {
+					// the error mapped by a helper that returns nil only for nil (`return unexpectedEOF(err)`)
+					if mc, isCall := rv.Val.(*ssa.Call); isCall && len(mc.Call.Args) == 1 && strip(T.T(mc.Call.Args[0])) == strip(errT) && errorMapper(p, T, staticTarget(&mc.Call)) {
+						okv = true
+					}
+				}
+				if !okv {
 					// anything else (nil in particular) only where the write is known to have succeeded
-					okv = hasFact(T.FactsAt(rv.Ret.Block()), "EQ", errT, "nil")
+					okv = errKnownNil(p, T, T.FactsAt(rv.Ret.Block()), errT)
 				}
 				r.Ob("S10", shortName(f), fmt.Sprintf("a failed reply write is reported to the caller (return #%d)", n), rv.Ret.Pos(), okv,
 					"on a path where the write of the reply may have failed the function returns "+strip(vt)+": the handler is told the reply was delivered - a handler that streams replies to a client that has gone never ends, and its connection is never released")
 			}
 		}
-		r.Floor("S10", 2)
+		r.Floor("S10", 1)
 	})
 	// ---- S9
 	r.Guard("S9", func() {
